@@ -156,7 +156,7 @@ def run(ck):
 
     # ------------------------------------------------------------------ K: rock reads
     ck.rule("K1 Rock::IoState::handleReadCompletion: callReaderBack(buf, <not -1>) only with errFlag zero (DISK_OK), rlen < 0 F and expectedReply(request.id) T; "
-            "Rock::IoState::read_: theFile->read() only with sidCurrent < 0 F, RESPONSE(sidCurrent < 0 and the writer left -> callReaderBack(buf, -1))")
+            "Rock::IoState::read_: theFile->read() only with sidCurrent < 0 F, RESPONSE(sidCurrent < 0 -> callReaderBack())")
     hrc = facts.fn("Rock::IoState::handleReadCompletion")
     good_cb = lambda ev: ev_call("Rock::IoState::callReaderBack")(ev) and E.const(E.strip(ev["x"])["a"][1]) != -1
     kfl = ck.flow(hrc)
@@ -168,6 +168,8 @@ def run(ck):
     rd = facts.fn("Rock::IoState::read_")
     no_slice = E.m_cmp("<", E.m_is_mem("Rock::IoState::sidCurrent"), E.m_const(0))
     ck.require_fact("K1.rock-read-needs-slice", ck.flow(rd), ev_call({"DiskFile::read"}), no_slice, False, "theFile->read()", why="(a read beyond the entry's last slice would be issued)")
+    ck.require_response("K1.rock-read-needs-slice", rd, no_slice, True, ev_call("Rock::IoState::callReaderBack"), "callReaderBack()", term_kinds=("IfStmt",),
+                        why="(a read past the last slice would neither be issued nor answered)")
     ck.assume("version mixing under concurrent replacement (slot reuse between reads), the slice chains of rock/shared memory (C55/C57) and ufs/aufs/diskd I/O completion are not analysed")
     ck.assume("offline_mode and collapsed forwarding are cut; CheckSwapMetaUrl cannot validate entries without known URIs and CheckSwapMetaKey skips private keys (both listed as guards)")
     ck.assume("the exception edge from UnpackHitSwapMeta() to readHeader's catch handler is not modelled: a throw leaves the normal path, which is the only path reaching the disk bytes' use")
